@@ -72,6 +72,9 @@ def generated(rep, thorough):
         bits = grp.value.size
         for _ in range(3):
             add(alg, PublicKeyParamsEcdsa(point_x=rng.getrandbits(bits - rng.choice([0, 9])), point_y=rng.getrandbits(bits - rng.choice([0, 17])), named_group=grp))
+        # coordinates with leading zero octets (one real key in 65536 has both): fixed-width all the same
+        add(alg, PublicKeyParamsEcdsa(point_x=rng.getrandbits(bits - 9), point_y=rng.getrandbits(bits - 17), named_group=grp))
+        add(alg, PublicKeyParamsEcdsa(point_x=1, point_y=2, named_group=grp))
     for _ in range(3):
         add(DnsSecAlgorithm.ED25519, PublicKeyParamsEddsa(curve_type=NamedGroup.CURVE25519, key_data=bytes(rng.randrange(256) for _ in range(32))))
     # boundary of the key tag fold: RDATA whose 16-bit word sum T has (T mod 2^16) + (T div 2^16) >= 2^16, and its neighbours
